@@ -38,7 +38,10 @@ let transcript st steps =
 (* the spec side: the same transcript computed on the flat RFC bytes with the chunk boundaries
    (header | payload chunks) the Buf contract allows to be arbitrary: we only compare concatenations,
    so the spec prints the flat bytes and the comparison is done after canonicalisation in python *)
-let handle ws = match ws with
+let rec handle ws = match ws with
+  | ["dg.decc"; chunks] ->
+      let flat = String.concat "" (List.filter (fun c -> c <> "-") (String.split_on_char '.' chunks)) in
+      handle ["dg.dec"; (if flat = "" then "-" else flat)]
   | ["dg.enc"; sid; pl; steps] ->
       let sid = n_of_string sid in
       let p = chunks_of pl in
